@@ -618,7 +618,7 @@ fn c17_expand_3() {
     c17_body::<3>();
 }
 
-// @verif props=C17 tier=thorough timeout=5400 mem=30 unwind=7 bound="templates of 4 symbols (reaches ${a} and $$$1)" funcs="Regex::expand_replacement,Match::group,Match::named_group" stubs="String::{new,with_capacity,push,push_str} -> fixed 32-byte buffer model, capacity overflow asserted"
+// @verif props=C17 tier=extended timeout=5400 mem=30 unwind=7 bound="templates of 4 symbols (reaches ${a} and $$$1)" funcs="Regex::expand_replacement,Match::group,Match::named_group" stubs="String::{new,with_capacity,push,push_str} -> fixed 32-byte buffer model, capacity overflow asserted"
 #[kani::proof]
 #[kani::unwind(7)]
 #[kani::stub(std::string::String::push, stub_string_push)]
@@ -879,7 +879,7 @@ mod eng {
         c20_forward_body(1);
     }
 
-    // @verif props=C20 tier=thorough builds=pattern_index sub=eng timeout=7200 mem=24 unwind=8 bound="haystack <= 2 symbolic scalars, arbitrary engine table, next() until Done (<= 7 calls)" funcs="RegexSearcher::next,Regex::find_from,<&Regex as Pattern>::into_searcher,exec::Matches::next,BacktrackExecutor::next_match"
+    // @verif props=C20 tier=extended builds=pattern_index sub=eng timeout=7200 mem=24 unwind=8 bound="haystack <= 2 symbolic scalars, arbitrary engine table, next() until Done (<= 7 calls)" funcs="RegexSearcher::next,Regex::find_from,<&Regex as Pattern>::into_searcher,exec::Matches::next,BacktrackExecutor::next_match"
     // @verif stubs="MatchAttempter::try_at_pos -> arbitrary deterministic table END[offset]; BacktrackExecutor::successful_match -> Match{range, no captures, no names} (the regex has no groups)"
     #[kani::proof]
     #[kani::unwind(8)]
@@ -901,7 +901,7 @@ mod eng {
         c20_backward_body(0);
     }
 
-    // @verif props=C20 tier=thorough builds=pattern_index sub=eng timeout=7200 mem=16 unwind=6 bound="haystack <= 1 symbolic scalar, arbitrary engine table, next_back() until Done (<= 5 calls)" funcs="RegexSearcher::next_back,RegexSearcher::next,Regex::find_from"
+    // @verif props=C20 tier=extended builds=pattern_index sub=eng timeout=7200 mem=16 unwind=6 bound="haystack <= 1 symbolic scalar, arbitrary engine table, next_back() until Done (<= 5 calls)" funcs="RegexSearcher::next_back,RegexSearcher::next,Regex::find_from"
     // @verif stubs="MatchAttempter::try_at_pos -> arbitrary deterministic table END[offset]; BacktrackExecutor::successful_match -> Match{range, no captures, no names} (the regex has no groups)"
     #[kani::proof]
     #[kani::unwind(6)]
@@ -912,7 +912,7 @@ mod eng {
         c20_backward_body(1);
     }
 
-    // @verif props=C20 tier=thorough builds=pattern_index sub=eng timeout=7200 mem=24 unwind=8 bound="haystack <= 2 symbolic scalars, arbitrary engine table, next_back() until Done (<= 7 calls)" funcs="RegexSearcher::next_back,RegexSearcher::next,Regex::find_from"
+    // @verif props=C20 tier=extended builds=pattern_index sub=eng timeout=7200 mem=24 unwind=8 bound="haystack <= 2 symbolic scalars, arbitrary engine table, next_back() until Done (<= 7 calls)" funcs="RegexSearcher::next_back,RegexSearcher::next,Regex::find_from"
     // @verif stubs="MatchAttempter::try_at_pos -> arbitrary deterministic table END[offset]; BacktrackExecutor::successful_match -> Match{range, no captures, no names} (the regex has no groups)"
     #[kani::proof]
     #[kani::unwind(8)]
@@ -1056,7 +1056,7 @@ mod eng {
         c17_splice_body(false, false, 1);
     }
 
-    // @verif props=C17 tier=thorough builds=index sub=eng timeout=7200 mem=24 unwind=10 bound="replace_all: constant replacement '#', haystack <= 2 symbolic scalar value(s), arbitrary engine table" funcs="Regex::replace_all,find_iter,exec::Matches::next,expand_replacement"
+    // @verif props=C17 tier=extended builds=index sub=eng timeout=7200 mem=24 unwind=10 bound="replace_all: constant replacement '#', haystack <= 2 symbolic scalar value(s), arbitrary engine table" funcs="Regex::replace_all,find_iter,exec::Matches::next,expand_replacement"
     // @verif stubs="MatchAttempter::try_at_pos -> arbitrary deterministic table END[offset]; BacktrackExecutor::successful_match -> Match{range, no captures, no names} (the regex has no groups); String::{new,with_capacity,push,push_str} -> fixed 32-byte buffer model, capacity overflow asserted"
     #[kani::proof]
     #[kani::unwind(10)]
@@ -1070,7 +1070,7 @@ mod eng {
         c17_splice_body(true, true, 2);
     }
 
-    // @verif props=C17 tier=thorough builds=index sub=eng timeout=7200 mem=24 unwind=10 bound="replace_all_with: constant replacement '#', haystack <= 2 symbolic scalar value(s), arbitrary engine table" funcs="Regex::replace_all_with,find_iter,exec::Matches::next"
+    // @verif props=C17 tier=extended builds=index sub=eng timeout=7200 mem=24 unwind=10 bound="replace_all_with: constant replacement '#', haystack <= 2 symbolic scalar value(s), arbitrary engine table" funcs="Regex::replace_all_with,find_iter,exec::Matches::next"
     // @verif stubs="MatchAttempter::try_at_pos -> arbitrary deterministic table END[offset]; BacktrackExecutor::successful_match -> Match{range, no captures, no names} (the regex has no groups); String::{new,with_capacity,push,push_str} -> fixed 32-byte buffer model, capacity overflow asserted"
     #[kani::proof]
     #[kani::unwind(10)]
@@ -1084,7 +1084,7 @@ mod eng {
         c17_splice_body(true, false, 2);
     }
 
-    // @verif props=C17 tier=thorough builds=index sub=eng timeout=7200 mem=24 unwind=10 bound="replace: constant replacement '#', haystack <= 2 symbolic scalar value(s), arbitrary engine table" funcs="Regex::replace,find,expand_replacement"
+    // @verif props=C17 tier=extended builds=index sub=eng timeout=7200 mem=24 unwind=10 bound="replace: constant replacement '#', haystack <= 2 symbolic scalar value(s), arbitrary engine table" funcs="Regex::replace,find,expand_replacement"
     // @verif stubs="MatchAttempter::try_at_pos -> arbitrary deterministic table END[offset]; BacktrackExecutor::successful_match -> Match{range, no captures, no names} (the regex has no groups); String::{new,with_capacity,push,push_str} -> fixed 32-byte buffer model, capacity overflow asserted"
     #[kani::proof]
     #[kani::unwind(10)]
@@ -1098,7 +1098,7 @@ mod eng {
         c17_splice_body(false, true, 2);
     }
 
-    // @verif props=C17 tier=thorough builds=index sub=eng timeout=7200 mem=24 unwind=10 bound="replace_with: constant replacement '#', haystack <= 2 symbolic scalar value(s), arbitrary engine table" funcs="Regex::replace_with,find"
+    // @verif props=C17 tier=extended builds=index sub=eng timeout=7200 mem=24 unwind=10 bound="replace_with: constant replacement '#', haystack <= 2 symbolic scalar value(s), arbitrary engine table" funcs="Regex::replace_with,find"
     // @verif stubs="MatchAttempter::try_at_pos -> arbitrary deterministic table END[offset]; BacktrackExecutor::successful_match -> Match{range, no captures, no names} (the regex has no groups); String::{new,with_capacity,push,push_str} -> fixed 32-byte buffer model, capacity overflow asserted"
     #[kani::proof]
     #[kani::unwind(10)]
